@@ -6,6 +6,8 @@ import Qfx.Lemmas.Values
 import Qfx.Lemmas.TsShape
 import Qfx.Lemmas.TsRoundTrip
 import Qfx.Lemmas.Decimal
+import Qfx.Lemmas.Float
+import Qfx.Lemmas.FloatWrite
 open Qfx Qfx.Spec
 
 /-! ## int -/
@@ -191,6 +193,145 @@ theorem C14_float_accept_iff_grammar (b : Bytes) : acceptFloat b = FloatGrammar 
       · rename_i heq; simp at heq; exact absurd heq.1 hc
       · rfl
 
+/-! ## float (values): binary64 as exact arithmetic (Model/Float.lean), `Nearest` = the declarative reading (Spec/Float.lean) -/
+section FloatValues
+open Qfx.F64
+
+/-- the model's rounding function returns a nearest double (ties to even) of every non-negative rational -/
+theorem C14_float_round_nearest (num den : Nat) (hd : 0 < den) : Nearest num den (roundOrd num den) :=
+  roundOrd_nearest num den hd
+
+/-- whatever `Read` returns for a byte string: the string is in the FIX float grammar, and the bits are the correctly
+    rounded (nearest, ties to even) finite double of the rational the text denotes — integer part plus decimals, the
+    sign of the text kept (also on zero).  For EVERY byte string; in particular `10000000000000000000` is never read
+    as a negative number. -/
+theorem C14_float_read_nearest (b : Bytes) (bits : Nat) (h : readFloat b = .ok bits) :
+    FloatGrammar b = true ∧ IsNearestBits (floatNeg b) (floatNum b) (floatDen b) bits := by
+  cases hacc : acceptFloat b with
+  | false => rw [readFloat_reject b hacc] at h; cases h
+  | true =>
+    have hg : FloatGrammar b = true := by rw [← C14_float_accept_iff_grammar]; exact hacc
+    refine ⟨hg, ?_⟩
+    by_cases hfin : roundOrd (floatNum b) (floatDen b) < infOrd
+    · rw [readFloat_fin b hacc hg hfin] at h
+      cases h
+      unfold IsNearestBits
+      rw [ordOf_mkBits _ _ hfin]
+      exact ⟨rfl, hfin, roundOrd_nearest _ _ (floatDen_pos b)⟩
+    · rw [readFloat_inf b hacc hg hfin] at h; cases h
+
+/-- two bit patterns that are both correct readings of the same signed rational are equal
+    (the sign is part of the reading, so +0 and −0 are told apart by the sign of the text) -/
+theorem C14_float_nearest_unique (neg : Bool) (num den b1 b2 : Nat) (hd : 0 < den)
+    (h1 : IsNearestBits neg num den b1) (h2 : IsNearestBits neg num den b2) : b1 = b2 := by
+  obtain ⟨e1, _, n1⟩ := h1
+  obtain ⟨e2, _, n2⟩ := h2
+  rw [e1, e2, nearest_unique num den _ _ hd n1 n2]
+
+/-- the same on magnitudes (ordinals), exponent range unbounded above -/
+theorem C14_float_nearest_unique_ord (num den a b : Nat) (hd : 0 < den)
+    (ha : Nearest num den a) (hb : Nearest num den b) : a = b := nearest_unique num den a b hd ha hb
+
+/-- write→read on the model: for ANY text of the grammar (whatever writer produced it), if some bits are a correct
+    reading of it in the declarative sense — which is what the monitor checks on every `float write` of the
+    implementation — then `Read` returns exactly those bits -/
+theorem C14_float_write_read_model (t : Bytes) (bits : Nat) (hg : FloatGrammar t = true)
+    (h : IsNearestBits (floatNeg t) (floatNum t) (floatDen t) bits) : readFloat t = .ok bits := by
+  obtain ⟨e, hfin, hn⟩ := h
+  have hd := floatDen_pos t
+  have hu := nearest_unique _ _ _ _ hd (roundOrd_nearest (floatNum t) (floatDen t) hd) hn
+  have hacc : acceptFloat t = true := by rw [C14_float_accept_iff_grammar]; exact hg
+  rw [← hu] at hfin
+  rw [readFloat_fin t hacc hg hfin, hu, ← e]
+
+/-- "texts outside the FIX grammar for the type are rejected": `Read` succeeds exactly on the texts of the float grammar
+    whose value is below the midpoint of the largest finite double and 2^1024 (beyond it ParseFloat reports a range
+    error); in particular it never faults -/
+theorem C14_float_ok_iff (b : Bytes) :
+    (readFloat b).isOk = (FloatGrammar b && !Overflows (floatNum b) (floatDen b)) := by
+  cases hacc : acceptFloat b with
+  | false =>
+    have hg : FloatGrammar b = false := by rw [← C14_float_accept_iff_grammar]; exact hacc
+    rw [readFloat_reject b hacc, hg]; rfl
+  | true =>
+    have hg : FloatGrammar b = true := by rw [← C14_float_accept_iff_grammar]; exact hacc
+    have hiff := nearest_inf_iff _ _ _ (floatDen_pos b) (roundOrd_nearest (floatNum b) (floatDen b) (floatDen_pos b))
+    by_cases hfin : roundOrd (floatNum b) (floatDen b) < infOrd
+    · have : Overflows (floatNum b) (floatDen b) = false := by
+        cases h : Overflows (floatNum b) (floatDen b) with
+        | false => rfl
+        | true => exact absurd hfin (hiff.2 h)
+      rw [readFloat_fin b hacc hg hfin, hg, this]; rfl
+    · rw [readFloat_inf b hacc hg hfin, hg, hiff.1 hfin]; rfl
+
+/-! non-vacuity and landmarks, evaluated (the same inputs are replayed on the implementation by the val family):
+    2^53+1 is halfway and goes to the even neighbour; 10^19 ≥ 2^63 stays positive; "-0" keeps its sign;
+    the largest finite double and the first text that is out of range; shortest positional output. -/
+#guard readFloat (asciiOf "9007199254740993") == .ok 0x4340000000000000
+#guard readFloat (asciiOf "9007199254740995") == .ok 0x4340000000000002
+#guard readFloat (asciiOf "10000000000000000000") == .ok 0x43e158e460913d00
+#guard readFloat (asciiOf "-0") == .ok 0x8000000000000000 && readFloat (asciiOf "0.0") == .ok 0
+#guard readFloat (asciiOf "0.1") == .ok 0x3fb999999999999a && readFloat (asciiOf "-1.5") == .ok 0xbff8000000000000
+#guard readFloat (asciiOf "1" ++ List.replicate 308 48) == .ok 0x7fe1ccf385ebc8a0
+#guard (readFloat (asciiOf "1" ++ List.replicate 309 48)).isOk == false
+#guard readFloat (asciiOf "0." ++ List.replicate 323 48 ++ asciiOf "5") == .ok 1
+#guard readFloat (asciiOf "0." ++ List.replicate 323 48 ++ asciiOf "2") == .ok 0
+#guard decide (IsNearestBits false 9007199254740993 1 0x4340000000000000) && !decide (IsNearestBits false 9007199254740993 1 0x4340000000000001)
+#guard !decide (IsNearestBits false 10000000000000000000 1 0xc3dd83c94fb6d2ac)   -- what an int64 wrap-around would give
+#guard decide (IsNearestBits true 0 1 0x8000000000000000) && !decide (IsNearestBits true 0 1 0)
+#guard Overflows (10 ^ 309) 1 && !Overflows (10 ^ 308) 1
+#guard writeFloat 0x3fb999999999999a == asciiOf "0.1" && writeFloat 0x8000000000000000 == asciiOf "-0"
+#guard writeFloat 0x444b1ae4d6e2ef50 == asciiOf "1000000000000000000000" && writeFloat 0x4340000000000001 == asciiOf "9007199254740994"
+#guard writeFloat 1 == asciiOf "0." ++ List.replicate 323 48 ++ asciiOf "5"
+#guard monFloatRead (asciiOf "10000000000000000000") ["ok", "c3dd83c94fb6d2ac"] == ["float_value_wrong_sign"]
+#guard monFloatRead (asciiOf "9007199254740993") ["ok", "4340000000000001"] == ["float_value_not_nearest{whole}"]
+#guard monFloatWrite 0x3fb999999999999a [toHex (asciiOf "0.10000000000000001")] == ["float_write_not_shortest"]
+#guard monFloatWrite 0x3fb999999999999a [toHex (asciiOf "0.1")] == [] && monFloatWrite 0x3fb999999999999a [toHex (asciiOf "0.10")] == ["float_write_not_canonical"]
+#guard monFloatWrite 0x3fb999999999999a [toHex (asciiOf "0.100000")] != [] && monFloatWrite 0x3ff0000000000000 [toHex (asciiOf "1e+00")] == ["float_write_nongrammar"]
+
+/-- "writing a value and reading the text back yields the same value", on the model, for EVERY finite 64-bit pattern
+    (both signs, zeros, subnormals, up to the largest finite double): the shortest-digits positional text that the
+    model's writer produces is read back by the model's reader as exactly the same bits -/
+theorem C14_float_write_read (bits : Nat) (h64 : bits < 18446744073709551616) (hfin : ordOf bits < infOrd) :
+    readFloat (writeFloat bits) = .ok bits := writeFloat_read bits h64 hfin
+
+/-- the written text is in the FIX float grammar (no exponent, no "+", no Inf/NaN) and, declaratively, denotes a rational
+    whose nearest double is the value written -/
+theorem C14_float_write_grammar (bits : Nat) (h64 : bits < 18446744073709551616) (hfin : ordOf bits < infOrd) :
+    FloatGrammar (writeFloat bits) = true ∧
+    IsNearestBits (floatNeg (writeFloat bits)) (floatNum (writeFloat bits)) (floatDen (writeFloat bits)) bits :=
+  C14_float_read_nearest _ _ (writeFloat_read bits h64 hfin)
+
+/-- canonical texts are exactly the outputs of `Write` on finite values -/
+def FloatCanonical (b : Bytes) : Prop := ∃ bits, bits < 18446744073709551616 ∧ ordOf bits < infOrd ∧ b = writeFloat bits
+
+/-- "reading a canonical text and writing it back yields the same text" -/
+theorem C14_float_read_write (b : Bytes) (hc : FloatCanonical b) (v : Nat) (hr : readFloat b = .ok v) : writeFloat v = b := by
+  obtain ⟨bits, h64, hfin, rfl⟩ := hc
+  rw [writeFloat_read bits h64 hfin] at hr
+  cases hr; rfl
+
+/-! non-vacuity of `FloatCanonical` (evaluated: `Nat.log2` does not reduce in the kernel) -/
+#guard writeFloat 0 == asciiOf "0" && writeFloat 0x4059000000000000 == asciiOf "100" && writeFloat 0xbfe0000000000000 == asciiOf "-0.5"
+#guard [0, 1, 0x8000000000000000, 0x3fb999999999999a, 0x7fefffffffffffff, 0x0010000000000000, 0xc340000000000001].all
+  fun bits => readFloat (writeFloat bits) == .ok bits
+
+/-- not proved (full statement): the model's writer emits the SHORTEST text that reads back — no text of the grammar with
+    fewer significant digits has the value as its nearest double — and of those the closest.  `tryK`/`shortestFrom`
+    search candidates in increasing length, so this needs that the two candidates per length are the only possible
+    ones (convexity of the set of rationals reading back to one double) and that 17 digits always suffice.  On the
+    implementation the clauses float_write_not_shortest / float_write_not_closest check it per generated value. -/
+def sigDigits (t : Bytes) : Nat := (fmtNat (stripT t.length (floatNum t) 0).1).length
+
+def C14_float_write_shortest_full : Prop :=
+  ∀ bits : Nat, bits < 18446744073709551616 → ordOf bits < infOrd →
+    ∀ t : Bytes, FloatGrammar t = true → IsNearestBits (floatNeg t) (floatNum t) (floatDen t) bits →
+      sigDigits (writeFloat bits) ≤ sigDigits t
+
+#guard sigDigits (asciiOf "0.10000000000000001") == 17 && sigDigits (asciiOf "1200.0") == 2 && sigDigits (writeFloat 0x3fb999999999999a) == 1
+
+end FloatValues
+
 /-! ## UTC timestamp -/
 
 theorem isDigit_d (x : Nat) : isDigit (48 + x % 10) = true := isDigit_add _ (Nat.mod_lt _ (by decide))
@@ -290,7 +431,15 @@ Clause checklist (properties.jsonl C14 → theorems)
 * int grammar exactly:    C14_int_accept_iff_grammar, C14_int_value (no wrong value up to 18 digits)
 * original code's panic:  C14_int_original_faults_only_on_empty (D1)
 * boolean:                C14_bool_write_read, C14_bool_read_write, C14_bool_accept_iff_grammar
-* float grammar exactly:  C14_float_accept_iff_grammar (value/shortest repr: strconv, correspondence only)
+* float grammar exactly:  C14_float_accept_iff_grammar, C14_float_ok_iff (grammar ∧ in range ⇔ accepted; never a fault)
+* float value read:       C14_float_read_nearest (every accepted text is read as the correctly rounded double of its rational, sign kept),
+                          C14_float_round_nearest, C14_float_nearest_unique(_ord) (the declarative reading determines the bits)
+* float write→read:       C14_float_write_read (model: every finite bit pattern; all 2^64 − 2^53 of them), C14_float_write_grammar,
+                          C14_float_write_read_model (ANY text whose declarative reading is `bits` is read as `bits`; the monitor clause
+                          float_write_read establishes the premise for the implementation's writer on every generated value)
+* float read→write:       C14_float_read_write (canonical = what Write produces); that strconv's digits are the model writer's digits
+                          (shortest, then closest, then even; %f-canonical form): monitor clauses float_write_not_shortest /
+                          _not_closest / _not_canonical + correspondence; C14_float_write_shortest_full (def, not proved)
 * timestamp write→read:   C14_ts_write_read; exactly the grammar: C14_ts_accept_iff_grammar; read→write: C14_ts_read_write
 * string/bytes:           C14_string_identity
 * decimal:                C14_dec_write_read, C14_dec_write_rounds_half_away, C14_dec_write_read_exact, C14_udec_write_read,
